@@ -149,6 +149,12 @@ def cases(tier, seed):
         for tri in itertools.combinations(range(len(LICENCES)), 3):
             if st == "python":
                 yield {"k": "D", "style": st, "lics": list(tri)}
+    for st in sts:
+        for form in FORMS:
+            for kind in ("lic", "cop", "con", "snip"):
+                for pad in ("", " ", "  \t"):
+                    for with_other in (False, True):
+                        yield {"k": "E", "style": st, "form": form, "kind": kind, "pad": pad, "with_other": with_other}
     for i, lic in enumerate(LICENCES):
         for broken in ("AND AND", "(", "WITH", "OR )"):
             yield {"k": "C", "lic": lic, "broken": broken, "where": "header" if i % 2 else "dot-license"}
@@ -353,7 +359,29 @@ def ev_D(c) -> R:
     return r
 
 
-_EV = {"A": ev_A, "B": ev_B, "B2": ev_B2, "C": ev_C, "D": ev_D}
+def ev_E(c) -> R:
+    """A tag without a value declares nothing (and is not an expression called 'None', nor a notice made of the bare tag name)."""
+    r = R()
+    cls = next(s for s in styles() if s.SHORTHAND == c["style"])
+    tag = {"lic": "SPDX-License-Identifier:", "cop": "SPDX-FileCopyrightText:", "con": "SPDX-FileContributor:", "snip": "SPDX-SnippetCopyrightText:"}[c["kind"]]
+    made = make_lines(cls, c["form"], "none", tag + c["pad"], c["kind"])
+    if made is None:
+        r.outcome, r.nontrivial = "n/a", False
+        return r
+    text = made[0]
+    if c["with_other"]:
+        text += cls.create_comment("SPDX-FileCopyrightText: 2020 Jane Doe\nSPDX-License-Identifier: MIT") + "\n"
+    got = observe(text)
+    exp = (["MIT"], ["SPDX-FileCopyrightText: 2020 Jane Doe"], []) if c["with_other"] else ([], [], [])
+    r.evals = r.validated = 1
+    if got != exp:
+        r.violation(f"E|empty-{c['kind']}-tag|{c['form']}", f"style {c['style']}: text {text!r} is read as {got}, expected {exp}", text=text)
+    r.outcome = "E"
+    r.tags.append("E")
+    return r
+
+
+_EV = {"A": ev_A, "B": ev_B, "B2": ev_B2, "C": ev_C, "D": ev_D, "E": ev_E}
 
 
 def evaluate(c) -> R:
